@@ -4,6 +4,8 @@ Design: Pipeline.tla (MinKeeps over all small test cases).  P1: end-to-end runs 
 minimisation strategy and direction; coverage per optimised coverage function is recomputed on
 cache-free clones before and after generator._minimize; statements after are matched against
 statements before; asserted statements must survive.
+P2: TLC enumerates small suites over harness/sut/pp_sut.py (MC_PipelineProg); each runs through the
+real AssertionGenerator and generator._minimize (CASE/SUITE/COMBINED/NONE x FORWARD/BACKWARD).
 """
 
 from __future__ import annotations
@@ -43,9 +45,15 @@ def run(ctx: Ctx) -> None:
                kind=lambda r, e: "tests-removed" if e["tests_after"] < e["tests_before"] else "same-tests")
     for t in traces[:3]:
         ctx.sample({k: t["ev"][0][k] for k in ("raw_before", "raw_after", "n_before", "n_after", "asserted_dropped")})
+    n_e2e = ctx.evaluations
+    # P2: TLC-enumerated suites (one or two test cases over harness/sut/pp_sut.py) through the real
+    # assertion generation and generator._minimize with every strategy and direction
+    ctx.evaluations = n_e2e + P.replay_progs(ctx, "C22", CLAUSES)
 
 
 def replay(ctx: Ctx, rec: dict) -> int:
+    if "replay" in rec["behaviour"]:
+        return P.replay_one(ctx, rec, "C22", CLAUSES)
     from harness.adapters import e2e  # noqa: PLC0415
 
     r = e2e.run_many([rec["behaviour"]])[0]
